@@ -331,6 +331,9 @@ WITNESSES = [
     ("serialize-ws-fold-joins-lines", "properties", "a = A\nb = B\n", "a = la  ", {"b": "nb"}),
     ("serialize-ws-fold-ini-comment-leaves-line-start", "ini",
      "a=A\n;c\n\nb=B\n", "a=la\n\n  b=lb\n", {}),
+    ("serialize-ws-fold-after-junk-joins-lines", "ftl",
+     "one = One\ntwo = Two\nfour = Four\n", "one = Eins\n# c\n   junk\nfour = Vier\n",
+     {"two": "two = Zwei"}),
 ]
 
 
@@ -358,6 +361,16 @@ def run_witnesses(chk, only=None):
                           "why": "prune keeps the LONGER whitespace: the old file's blank line + "
                                  "key indentation beats the reference's line break in front of "
                                  "the comment, which then does not start a line and is Junk"})
+        if sig == "serialize-ws-fold-after-junk-joins-lines" and text is not None:
+            keys = [key_str(e.key) for e in walk_bytes(name, text.encode("utf-8"))
+                    if ckind(e) == K_ENTITY]
+            if keys != ["one", "two", "four"]:
+                chk.fail(sig, {"fmt": fmt, "ref": ref_t, "old": old_t, "new_data": new_data},
+                         {"output": text, "keys": keys,
+                          "why": "the indentation of the old file's junk line is a Whitespace "
+                                 "entry of its own; with the Junk entry dropped it meets the line "
+                                 "break before it and wins the folding by length: '# c' and "
+                                 "'two = Zwei' end up on one line, the message is lost"})
         if sig == "ftl-unwrap-includes-comment" and text is not None:
             ents = [e for e in walk_bytes(name, text.encode("utf-8")) if ckind(e) == K_ENTITY]
             if [e.unwrap() for e in ents] != [new_data["k"]]:
@@ -490,6 +503,70 @@ def run_ws_fold(chk, model):
 
 
 INI_LINE_START = "serialize-ws-fold-ini-comment-leaves-line-start"
+FTL_JUNK_INDENT = "serialize-ws-fold-after-junk-joins-lines"
+
+
+def run_ftl_junk_indent(chk, model):
+    """FTL-JUNK-INDENT: Fluent triples whose old localization has one INDENTED junk line
+    (after a standalone comment).
+    FluentParser yields the indentation as a Whitespace entry of its own (after the
+    Whitespace entry of the line break before it); serialize drops the Junk entry, the two
+    whitespace entries become adjacent and prune keeps the LONGER one: with three blanks
+    against one line break the line break is lost and the next entry is glued onto the
+    previous line (a comment line swallows a message).  Ordinary oracle.  Listed finding
+    `serialize-ws-fold-after-junk-joins-lines`: a generic failure is attributed to it only
+    when the output equals the output for the same triple with the junk line NOT indented
+    with exactly one run of newlines replaced by the indentation; anything else stays a
+    violation."""
+    import re
+    rng = chk.rng
+    cases, impl, reqs = [], [], []
+    name = FNAME["ftl"]
+    for _ in range(chk.n(300, 3000)):
+        case = gen_triple(rng, "ftl")
+        line = JUNK_LINE["ftl"]
+        if not case["old"]:
+            continue
+        # the junk line directly after a standalone comment of the old file (after a message an
+        # indented line would be a continuation line of its value, not junk)
+        items = [it for it in case["old_items"] if it[0] != "junk"]
+        pos = rng.randint(c15.insert_floor("ftl", items), len(items))
+        indent = rng.choice(["   ", "  ", " ", "    ", "\t\t", "     "])
+        com = ("com", rng.choice(c15.COMMENTS))
+        case["old_items"] = items[:pos] + [com, ("junk", indent + line)] + items[pos:]
+        case["junk"] = 1
+        case["old"] = render("ftl", case["old_items"])
+        clean_old = render("ftl", items[:pos] + [com, ("junk", line)] + items[pos:])
+        ref = walk_bytes(name, case["ref"].encode("utf-8"))
+        old = walk_bytes(name, case["old"].encode("utf-8"))
+        res, text = serialize_impl(name, ref, old, case["new_data"])
+        chk.count(("fji", case["ref"], case["old"], sorted(case["new_data"].items(), key=str)))
+        desc = describe(case)
+        cases.append(desc)
+        impl.append(res)
+        reqs.append(model_request(name, ref, old, case["new_data"]))
+        if text is None:
+            chk.fail("serialize-raises", desc, res)
+            continue
+        sub = common.Check(chk.prop, chk.tier, chk.seed)
+        sub.known = []
+        oracle_serialize(sub, case, ref, text)
+        joined = False
+        if sub.failures:
+            _, clean = serialize_impl(name, ref, walk_bytes(name, clean_old.encode("utf-8")),
+                                      case["new_data"])
+            if clean is not None:
+                joined = any(clean[:m.start()] + indent + clean[m.end():] == text
+                             for m in re.finditer(r"\n+", clean))
+        for f in sub.failures:
+            generic = f["signature"] in ("serialize-reparse-junk", "serialize-entities",
+                                         "serialize-values", "serialize-idempotent",
+                                         "serialize-wrapped-text", "serialize-leak")
+            chk.fail(FTL_JUNK_INDENT if joined and generic else f["signature"],
+                     f["case"], dict(f["detail"], junk_indent=indent)
+                     if isinstance(f["detail"], dict) else f["detail"])
+    if model:
+        chk.correspond("FTL-JUNK-INDENT", cases, impl, model.call(reqs))
 
 
 def ini_line_start_repair(name, entries):
@@ -639,6 +716,7 @@ def run(chk, runner_ok):
     run_ftl_unwrap(chk, model)
     run_ws_fold(chk, model)
     run_ini_indent(chk, model)
+    run_ftl_junk_indent(chk, model)
     # ---- SEQUENCE: supported and unsupported names interleaved in this one process ------
     # (which names have a parser is known from how c15.seq_sequences builds them)
     cases, impl, reqs = [], [], []
